@@ -410,6 +410,154 @@ Proof.
   - exact (rel_init size s Hne).
 Qed.
 
+(* ---- bufio.Reader.Read and io.ReadFull over it: the next read after Sync ---- *)
+Lemma read_spec b k : Inv0 b -> 0 < k ->
+  exists data e b', read k b = Ok ((data, e), b') /\ Inv0 b' /\ data ++ bdata b' = bdata b /\
+    st_err (brd b') = st_err (brd b) /\ length data <= k /\ (e = None -> data <> []) /\
+    (forall x, e = Some x -> bdata b' = [] /\ x = st_err (brd b)).
+Proof.
+  intros HI Hk. pose proof HI as [Hlen [Hrw [Hwc [Hc4 [Herr Hne]]]]].
+  unfold read. destruct (Nat.eqb_spec k 0) as [Hk0|_]; [lia|].
+  assert (Hcopy : forall b0, Inv0 b0 -> bwin b0 <> [] ->
+    exists data e b', (let out := firstn k (bwin b0) in
+       Ok ((out, @None N), mkB (bcap b0) (br b0 + length out) (bw b0) (skipn k (bwin b0)) (berr b0)
+                              (last_of out (blast b0)) (brd b0))) = Ok ((data, e), b') /\ Inv0 b' /\
+      data ++ bdata b' = bdata b0 /\ st_err (brd b') = st_err (brd b0) /\ length data <= k /\
+      (e = None -> data <> []) /\ (forall x, e = Some x -> bdata b' = [] /\ x = st_err (brd b0))).
+  { intros b0 [Hl0 [Hrw0 [Hwc0 [Hc40 [Herr0 Hne0]]]]] Hw0.
+    eexists _, _, _. split; [reflexivity|].
+    split.
+    { unfold Inv0. cbn [bcap br bw bwin berr blast brd]. rewrite skipn_length, firstn_length.
+      split; [lia|]. split; [lia|]. split; [lia|]. split; [lia|]. split; assumption. }
+    split.
+    { unfold bdata. cbn [bwin brd]. rewrite app_assoc, firstn_skipn. reflexivity. }
+    split; [reflexivity|]. split; [rewrite firstn_length; lia|]. split.
+    - intros _ E0. apply (f_equal (@length N)) in E0. rewrite firstn_length in E0. cbn [length] in E0.
+      destruct (bwin b0); [contradiction|cbn [length] in E0; lia].
+    - intros x Hx. discriminate. }
+  destruct (Nat.eqb_spec (br b) (bw b)) as [Heq|Hneq].
+  2:{ apply Hcopy; [exact HI|]. intro E0. rewrite E0 in Hlen. cbn in Hlen. lia. }
+  assert (Hwin : bwin b = []) by (destruct (bwin b); [reflexivity|cbn in Hlen; lia]).
+  destruct (berr b) as [e|] eqn:He.
+  - pose proof (Herr e eq_refl) as Hf.
+    eexists _, _, _. split; [reflexivity|]. split.
+    { unfold Inv0. cbn [bcap br bw bwin berr blast brd]. repeat (split; [assumption|]).
+      split; [discriminate|exact Hne]. }
+    unfold bdata. cbn [bwin brd]. rewrite Hwin, Hf. cbn [st_data st_err app length].
+    split; [reflexivity|]. split; [reflexivity|]. split; [lia|]. split; [discriminate|].
+    intros x Hx. inversion Hx; subst. auto.
+  - destruct (Nat.leb_spec (bcap b) k) as [Hbig|Hsmall].
+    + destruct (rd_read (brd b) k) as [[data e] rd'] eqn:Hrd.
+      destruct (rd_read_facts (brd b) k Hk Hne data e rd' Hrd) as [Hdat [Hse [Hld [Hne' [Hsome Hnone]]]]].
+      eexists _, _, _. split; [reflexivity|]. split.
+      { unfold Inv0. cbn [bcap br bw bwin berr blast brd]. repeat (split; [assumption|]).
+        split; [discriminate|exact Hne']. }
+      unfold bdata. cbn [bwin brd]. rewrite Hwin. cbn [app].
+      split; [exact Hdat|]. split; [exact Hse|]. split; [exact Hld|]. split; [exact Hnone|].
+      intros x Hx. destruct (Hsome x Hx) as [Hf Hxx]. rewrite Hf. cbn [st_data]. auto.
+    + destruct (rd_read (brd b) (bcap b)) as [[data e] rd'] eqn:Hrd.
+      destruct (rd_read_facts (brd b) (bcap b) ltac:(lia) Hne data e rd' Hrd)
+        as [Hdat [Hse [Hld [Hne' [Hsome Hnone]]]]].
+      destruct data as [|d ds].
+      * destruct e as [x|]; [|exfalso; apply (Hnone eq_refl); reflexivity].
+        destruct (Hsome x eq_refl) as [Hf Hxx].
+        eexists _, _, _. split; [reflexivity|]. split.
+        { unfold Inv0. cbn [bcap br bw bwin berr blast brd length].
+          split; [lia|]. split; [lia|]. split; [lia|]. split; [lia|]. split; [discriminate|exact Hne']. }
+        unfold bdata. cbn [bwin brd]. rewrite Hwin, Hf. cbn [st_data app length].
+        split; [rewrite Hf in Hdat; exact Hdat|]. split; [rewrite <- Hse, Hf; reflexivity|].
+        split; [lia|]. split; [discriminate|]. intros y Hy. inversion Hy; subst. auto.
+      * set (b1 := mkB (bcap b) 0 (length (d :: ds)) (d :: ds) e (blast b) rd').
+        assert (HI1 : Inv0 b1).
+        { unfold Inv0, b1. cbn [bcap br bw bwin berr blast brd].
+          split; [lia|]. split; [lia|]. split; [exact Hld|]. split; [lia|]. split; [|exact Hne'].
+          intros x Hx. destruct (Hsome x Hx) as [Hf _]. exact Hf. }
+        destruct (Hcopy b1 HI1 ltac:(discriminate)) as [dat [e' [b' [Hc [HIb [Hd' [He' [Hl' [Hn' Hs']]]]]]]]].
+        exists dat, e', b'. split; [exact Hc|]. split; [exact HIb|].
+        split.
+        { rewrite Hd'. unfold bdata, b1. cbn [bwin brd]. rewrite Hwin. cbn [app]. exact Hdat. }
+        split; [rewrite He'; exact Hse|]. split; [exact Hl'|]. split; [exact Hn'|].
+        intros x Hx. destruct (Hs' x Hx) as [Hb' Hxx]. split; [exact Hb'|]. rewrite Hxx. exact Hse.
+Qed.
+
+Definition rf_err (acc D : bytes) (want : nat) (e : N) : option N :=
+  if want - length acc <=? length D then None
+  else if (0 <? length (acc ++ D)) && (e =? E.EOF)%N then Some E.UnexpectedEOF else Some e.
+
+Lemma read_full_loop_S f want b acc err : read_full_loop (S f) want b acc err =
+  match err with
+  | None =>
+    if length acc <? want then
+      let? (de, b') := read (want - length acc) b in
+      read_full_loop f want b' (acc ++ fst de) (snd de)
+    else Ok (acc, None, b)
+  | Some e =>
+    Ok (acc, if want <=? length acc then None
+             else if (0 <? length acc) && (e =? E.EOF)%N then Some E.UnexpectedEOF else Some e, b)
+  end.
+Proof. reflexivity. Qed.
+
+Lemma read_full_loop_spec want : forall fuel b acc, Inv0 b -> length acc < want ->
+  (want - length acc) + 2 <= fuel ->
+  exists b', read_full_loop fuel want b acc None
+             = Ok (acc ++ firstn (want - length acc) (bdata b), rf_err acc (bdata b) want (st_err (brd b)), b')
+             /\ Inv0 b' /\ bdata b' = skipn (want - length acc) (bdata b) /\ st_err (brd b') = st_err (brd b).
+Proof.
+  induction fuel as [|f IH]; intros b acc HI Ha Hf; [lia|].
+  rewrite read_full_loop_S. destruct (Nat.ltb_spec (length acc) want) as [_|Hbad]; [|lia].
+  set (need := want - length acc). assert (Hneed : 0 < need) by (unfold need; lia).
+  destruct (read_spec b need HI Hneed) as [data [e [b1 [Hr [HI1 [Hd1 [He1 [Hl1 [Hnone Hsome]]]]]]]]].
+  rewrite Hr. cbn [bind fst snd].
+  destruct f as [|f']; [lia|].
+  destruct e as [x|].
+  - destruct (Hsome x eq_refl) as [Hb1 Hx]. rewrite Hb1, app_nil_r in Hd1.
+    rewrite read_full_loop_S. exists b1.
+    split; [|split; [exact HI1|split; [|exact He1]]].
+    + unfold rf_err. fold need. rewrite <- Hd1, firstn_all2 by exact Hl1. rewrite <- Hx.
+      f_equal. f_equal. f_equal.
+      destruct (Nat.leb_spec want (length (acc ++ data))) as [H|H];
+      destruct (Nat.leb_spec need (length data)) as [H'|H']; rewrite app_length in H; unfold need in *;
+        try lia; reflexivity.
+    + rewrite Hb1, <- Hd1. symmetry. apply skipn_all2. exact Hl1.
+  - specialize (Hnone eq_refl).
+    assert (Hpos : 0 < length data) by (destruct data; [contradiction|cbn; lia]).
+    destruct (Nat.eq_dec (length data) need) as [Hfull|Hpart].
+    + rewrite read_full_loop_S.
+      destruct (Nat.ltb_spec (length (acc ++ data)) want) as [Hbad|_];
+        [rewrite app_length in Hbad; unfold need in *; lia|].
+      exists b1. split; [|split; [exact HI1|split; [|exact He1]]].
+      * unfold rf_err. fold need. rewrite <- Hd1, firstn_app, Hfull, Nat.sub_diag. cbn [firstn].
+        rewrite <- Hfull at 1. rewrite firstn_all, app_nil_r.
+        destruct (Nat.leb_spec need (length (data ++ bdata b1))) as [_|H];
+          [reflexivity|rewrite app_length in H; lia].
+      * rewrite <- Hd1, skipn_app, Hfull, Nat.sub_diag. cbn [skipn].
+        rewrite <- Hfull. rewrite skipn_all. reflexivity.
+    + destruct (IH b1 (acc ++ data) HI1) as [b2 [Hr2 [HI2 [Hd2 He2]]]].
+      { rewrite app_length. unfold need in *. lia. }
+      { rewrite app_length. unfold need in *. lia. }
+      assert (Hn' : want - length (acc ++ data) = need - length data)
+        by (rewrite app_length; unfold need; lia).
+      rewrite Hn' in *.
+      exists b2. split; [|split; [exact HI2|split]].
+      * rewrite Hr2. unfold rf_err. fold need. rewrite Hn', <- Hd1, He1.
+        rewrite firstn_app, (firstn_all2 data) by lia. rewrite <- !app_assoc.
+        f_equal. f_equal. f_equal.
+        destruct (Nat.leb_spec (need - length data) (length (bdata b1))) as [H|H];
+        destruct (Nat.leb_spec need (length (data ++ bdata b1))) as [H'|H'];
+          rewrite app_length in H'; try lia; reflexivity.
+      * rewrite Hd2, <- Hd1, skipn_app, (skipn_all2 data) by lia. reflexivity.
+      * rewrite He2. exact He1.
+Qed.
+
+Lemma read_full_spec want b : Inv0 b -> 0 < want ->
+  exists e b', read_full want b = Ok (firstn want (bdata b), e, b') /\ bdata b' = skipn want (bdata b).
+Proof.
+  intros HI Hw. unfold read_full.
+  destruct (read_full_loop_spec want (want + 2 + weight (brd b)) b [] HI ltac:(cbn; lia) ltac:(cbn; lia))
+    as [b' [Hr [_ [Hd _]]]].
+  cbn [length app] in *. rewrite Nat.sub_0_r in *. eauto.
+Qed.
+
 (* ---- C16 over bufio.Reader of any size over any fragmentation ---- *)
 From Gots Require Import Proofs.SyncProofs.
 
@@ -423,6 +571,20 @@ Proof.
   destruct (Bufio.sync_raw size s) as [[[o e] b']| | |]; try contradiction.
   destruct H as [Hv [_ [_ [Hrest [Hterr _]]]]]. inversion Hv; subst.
   exists b'. split; [reflexivity|]. cbn [SyncIO.rest SyncIO.terr] in *. auto.
+Qed.
+
+(* ... and the next 188 bytes read through bufio.Reader.Read / io.ReadFull are the packet *)
+Lemma sync_bufio_next_read size s i : nonempty_reads (Script s) -> is_bytes (script_data s) ->
+  first_plausible (script_data s) i ->
+  exists b' e b'', Bufio.sync_raw size s = Ok (N.of_nat i, None, b') /\
+                   Bufio.read_full 188 b' = Ok (firstn 188 (skipn i (script_data s)), e, b'').
+Proof.
+  intros Hne HB Hi. pose proof (sync_over_bufio size s Hne) as H.
+  rewrite (sync_raw_found _ _ _ HB Hi) in H. unfold bsim, sim in H.
+  destruct (Bufio.sync_raw size s) as [[[o e] b']| | |]; try contradiction.
+  destruct H as [Hv [HI [_ [Hrest _]]]]. inversion Hv; subst.
+  destruct (read_full_spec 188 b' HI ltac:(lia)) as [e' [b'' [Hr _]]].
+  exists b', e', b''. split; [reflexivity|]. rewrite Hr. cbn [SyncIO.rest] in Hrest. rewrite <- Hrest. reflexivity.
 Qed.
 
 Lemma sync_bufio_none size s : nonempty_reads (Script s) -> is_bytes (script_data s) ->
